@@ -40,8 +40,10 @@ pub struct ValObs {
 pub trait NestedVal: map::Val<A> + CvRDT + PartialEq + std::fmt::Debug {
     const DEPTH: usize;
     const LEAF_REG: bool;
-    /// generate a nested op for the value at `path` (the enclosing update carries `dot`)
-    fn gen_nested(&self, ctx: AddCtx<A>, cr: &mut Rng, path: &[u8], dot: DotT, sh: &mut Shadow, old: Option<&Self>, acc: &mut GenAcc) -> Self::Op;
+    /// draw a random nested command for a value of this type
+    fn random_nested(rng: &mut Rng) -> Cmd;
+    /// interpret a nested command for the value at `path` (the enclosing update carries `dot`)
+    fn gen_nested(&self, ctx: AddCtx<A>, cmd: &Cmd, path: &[u8], dot: DotT, sh: &mut Shadow, old: Option<&Self>, acc: &mut GenAcc) -> Self::Op;
     fn obs(&self, inc: &mut Option<String>) -> ValObs;
 }
 
@@ -89,69 +91,80 @@ fn os_obs(s: &OS, inc: &mut Option<String>) -> (ValObs, Clk, Clk) {
     (ValObs { reads, w: wd, nested: Dump::Unit }, add, rm_all)
 }
 
-/// one Orswot command; `top` = top-level set (its own dots) vs nested under a map update
-fn os_cmd(s: &OS, cr: &mut Rng, old: Option<&OS>, acc: &mut GenAcc, path: &[u8], dot: Option<DotT>, add_ctx: Option<AddCtx<A>>, may_add: bool) -> orswot::Op<u8, A> {
-    let m = cr.below(nm() as usize) as u8;
-    let m2 = (m + 1) % nm();
-    let c = cr.below(10);
-    let dot_or = dot.unwrap_or((255, 0));
-    if may_add && c < 5 {
-        acc.desc += &format!("add({m})");
-        acc.facts.push(Fact::Up { dot: dot_or, path: path.to_vec(), leaf: Leaf::Add(vec![m]) });
-        return s.add(m, add_ctx.unwrap());
-    }
-    if may_add && c == 5 && cr.chance(1, 8) {
-        acc.desc += "add_all([])";
-        acc.facts.push(Fact::Up { dot: dot_or, path: path.to_vec(), leaf: Leaf::Add(vec![]) });
-        return s.add_all(Vec::<u8>::new(), add_ctx.unwrap());
-    }
-    if may_add && c == 5 {
-        acc.desc += &format!("add_all([{m},{m2}])");
-        acc.facts.push(Fact::Up { dot: dot_or, path: path.to_vec(), leaf: Leaf::Add(vec![m, m2]) });
-        return s.add_all(vec![m, m2], add_ctx.unwrap());
-    }
-    let stale = old.filter(|_| cr.chance(1, 3));
-    let src = stale.unwrap_or(s);
-    let tag = if stale.is_some() { "stale " } else { "" };
-    if c < 9 {
-        // single-member remove from contains() or from the iter() item of that member
-        let rc = match cr.below(5) {
-            0 | 1 => src.contains(&m).derive_rm_ctx(),
-            2 | 3 => match src.iter().find(|it| *it.val == m) {
-                Some(it) => it.derive_rm_ctx(),
-                None => src.contains(&m).derive_rm_ctx(),
-            },
-            // "remove what I have seen of m" from a whole-set read: several such removes issued
-            // from one state carry the *same* context clock
-            _ => {
-                if cr.chance(1, 2) {
-                    src.read().derive_rm_ctx()
-                } else {
-                    src.read_ctx().derive_rm_ctx()
-                }
-            }
-        };
-        let clk = vc(&rc.clock);
-        acc.desc += &format!("rm({m}) {tag}ctx{clk:?}");
-        acc.rm_ctxs.push(clk.clone());
-        acc.facts.push(Fact::Up { dot: dot_or, path: path.to_vec(), leaf: Leaf::SetRm(clk, vec![m]) });
-        s.rm(m, rc)
+fn os_random(rng: &mut Rng) -> Cmd {
+    let m = rng.below(nm() as usize) as u64;
+    let m2 = (m + 1) % nm() as u64;
+    let c = rng.below(10);
+    let stale = rng.chance(1, 3);
+    if c < 5 {
+        Cmd::new("add", vec![m])
+    } else if c == 5 {
+        // a batch filtered down to nothing still consumes the dot
+        if rng.chance(1, 8) {
+            Cmd::new("add_all", vec![])
+        } else {
+            Cmd::new("add_all", vec![m, m2])
+        }
+    } else if c < 9 {
+        // single-member remove: context of that member (contains / iter item) or "what I have seen" from a
+        // whole-set read (several such removes issued from one state carry the *same* context clock)
+        let src = ["contains", "contains", "iter", "iter", "read", "read_ctx"][rng.below(6)];
+        Cmd::new("rm", vec![m]).src(src).stale(stale)
     } else {
-        // "remove what I have seen" from a whole-set read
-        let rc = src.read().derive_rm_ctx();
-        let clk = vc(&rc.clock);
-        acc.desc += &format!("rm_all([{m},{m2}]) {tag}ctx{clk:?}");
-        acc.rm_ctxs.push(clk.clone());
-        acc.facts.push(Fact::Up { dot: dot_or, path: path.to_vec(), leaf: Leaf::SetRm(clk, vec![m, m2]) });
-        s.rm_all(vec![m, m2], rc)
+        Cmd::new("rm_all", vec![m, m2]).src(if rng.chance(1, 2) { "read" } else { "read_ctx" }).stale(stale)
+    }
+}
+
+/// interpret one Orswot command (top-level set: `dot` None for removes; nested: the enclosing update's dot)
+fn os_exec(s: &OS, cmd: &Cmd, old: Option<&OS>, acc: &mut GenAcc, path: &[u8], dot: Option<DotT>, add_ctx: Option<AddCtx<A>>) -> orswot::Op<u8, A> {
+    let dot_or = dot.unwrap_or((255, 0));
+    let ms: Vec<u8> = cmd.a.iter().map(|m| *m as u8).collect();
+    match cmd.k.as_str() {
+        "add" | "add_all" if add_ctx.is_some() => {
+            acc.desc += &format!("{}({ms:?})", cmd.k);
+            acc.facts.push(Fact::Up { dot: dot_or, path: path.to_vec(), leaf: Leaf::Add(ms.clone()) });
+            if cmd.k == "add" {
+                s.add(ms[0], add_ctx.unwrap())
+            } else {
+                s.add_all(ms, add_ctx.unwrap())
+            }
+        }
+        _ => {
+            let stale = if cmd.stale { old } else { None };
+            let src = stale.unwrap_or(s);
+            let tag = if stale.is_some() { "stale " } else { "" };
+            let m = ms.first().cloned().unwrap_or(0);
+            let rc = match cmd.src.as_str() {
+                "iter" => match src.iter().find(|it| *it.val == m) {
+                    Some(it) => it.derive_rm_ctx(),
+                    None => src.contains(&m).derive_rm_ctx(),
+                },
+                "read" => src.read().derive_rm_ctx(),
+                "read_ctx" => src.read_ctx().derive_rm_ctx(),
+                _ => src.contains(&m).derive_rm_ctx(),
+            };
+            let clk = vc(&rc.clock);
+            let ms = if ms.is_empty() { vec![0] } else { ms };
+            acc.desc += &format!("{}({ms:?}) {tag}{} ctx{clk:?}", if cmd.k == "rm_all" { "rm_all" } else { "rm" }, cmd.src);
+            acc.rm_ctxs.push(clk.clone());
+            acc.facts.push(Fact::Up { dot: dot_or, path: path.to_vec(), leaf: Leaf::SetRm(clk, ms.clone()) });
+            if cmd.k == "rm_all" {
+                s.rm_all(ms, rc)
+            } else {
+                s.rm(ms[0], rc)
+            }
+        }
     }
 }
 
 impl NestedVal for OS {
     const DEPTH: usize = 0;
     const LEAF_REG: bool = false;
-    fn gen_nested(&self, ctx: AddCtx<A>, cr: &mut Rng, path: &[u8], dot: DotT, _sh: &mut Shadow, old: Option<&Self>, acc: &mut GenAcc) -> Self::Op {
-        os_cmd(self, cr, old, acc, path, Some(dot), Some(ctx), true)
+    fn random_nested(rng: &mut Rng) -> Cmd {
+        os_random(rng)
+    }
+    fn gen_nested(&self, ctx: AddCtx<A>, cmd: &Cmd, path: &[u8], dot: DotT, _sh: &mut Shadow, old: Option<&Self>, acc: &mut GenAcc) -> Self::Op {
+        os_exec(self, cmd, old, acc, path, Some(dot), Some(ctx))
     }
     fn obs(&self, inc: &mut Option<String>) -> ValObs {
         os_obs(self, inc).0
@@ -166,37 +179,32 @@ impl Sut for OS {
     fn new() -> Self {
         Orswot::new()
     }
-    fn gen(&self, actor: A, cmd: (u8, u8, u8), sh: &mut Shadow, old: &Self) -> Option<Gen<Self::Op>> {
-        let mut cr = Rng::new(((cmd.0 as u64) << 16) | ((cmd.1 as u64) << 8) | cmd.2 as u64);
+    fn random_cmd(rng: &mut Rng, _sh: &Shadow) -> Cmd {
+        // top level: a little more than half of the commands are adds
+        loop {
+            let c = os_random(rng);
+            let is_add = c.k.starts_with("add");
+            if is_add || rng.chance(2, 3) {
+                return c;
+            }
+        }
+    }
+    fn gen(&self, actor: A, cmd: &Cmd, sh: &mut Shadow, old: &Self) -> Option<Gen<Self::Op>> {
         let mut acc = GenAcc { facts: vec![], desc: String::new(), rf_vals: vec![], rm_ctxs: vec![] };
-        let is_add = cr.below(10) < 6;
-        if is_add {
+        if cmd.k == "add" || cmd.k == "add_all" {
+            if cmd.k == "add" && cmd.a.is_empty() {
+                return None;
+            }
             let (ctx, d) = derive(self.read_ctx(), actor);
             let want = sh.take_dot(actor);
-            // force the add branch of os_cmd
-            let m = cr.below(nm() as usize) as u8;
-            let m2 = (m + 1) % nm();
-            let op = if cr.below(40) == 0 {
-                // a batch filtered down to nothing still consumes the dot
-                acc.desc = "add_all([])".to_string();
-                acc.facts.push(Fact::Up { dot: want, path: vec![], leaf: Leaf::Add(vec![]) });
-                self.add_all(Vec::<u8>::new(), ctx)
-            } else if cr.below(6) == 0 {
-                acc.desc = format!("add_all([{m},{m2}])");
-                acc.facts.push(Fact::Up { dot: want, path: vec![], leaf: Leaf::Add(vec![m, m2]) });
-                self.add_all(vec![m, m2], ctx)
-            } else {
-                acc.desc = format!("add({m})");
-                acc.facts.push(Fact::Up { dot: want, path: vec![], leaf: Leaf::Add(vec![m]) });
-                self.add(m, ctx)
-            };
+            let op = os_exec(self, cmd, Some(old), &mut acc, &[], Some(want), Some(ctx));
             let mut g = Gen::new(op, acc.desc);
             g.facts = acc.facts;
             g.want_dot = Some(want);
             g.derived = Some(d);
             Some(g)
         } else {
-            let op = os_cmd(self, &mut cr, Some(old), &mut acc, &[], None, None, false);
+            let op = os_exec(self, cmd, Some(old), &mut acc, &[], None, None);
             let mut g = Gen::new(op, acc.desc);
             g.facts = acc.facts;
             g.rm_ctxs = acc.rm_ctxs;
@@ -253,7 +261,10 @@ fn mv_obs(r: &MV, inc: &mut Option<String>) -> (ValObs, Clk) {
 impl NestedVal for MV {
     const DEPTH: usize = 0;
     const LEAF_REG: bool = true;
-    fn gen_nested(&self, ctx: AddCtx<A>, _cr: &mut Rng, path: &[u8], dot: DotT, sh: &mut Shadow, _old: Option<&Self>, acc: &mut GenAcc) -> Self::Op {
+    fn random_nested(_rng: &mut Rng) -> Cmd {
+        Cmd::new("write", vec![])
+    }
+    fn gen_nested(&self, ctx: AddCtx<A>, _cmd: &Cmd, path: &[u8], dot: DotT, sh: &mut Shadow, _old: Option<&Self>, acc: &mut GenAcc) -> Self::Op {
         let val = sh.uniq();
         acc.rf_vals = self.read().val;
         acc.desc += &format!("write({val})");
@@ -273,11 +284,15 @@ impl Sut for MV {
     fn new() -> Self {
         MVReg::new()
     }
-    fn gen(&self, actor: A, cmd: (u8, u8, u8), sh: &mut Shadow, _old: &Self) -> Option<Gen<Self::Op>> {
-        let (ctx, d) = derive(if cmd.0 % 2 == 0 { self.read_ctx() } else { self.read().split().1 }, actor);
+    fn random_cmd(rng: &mut Rng, sh: &Shadow) -> Cmd {
+        let c = Cmd::new(if sh.equal_vals { "write_val" } else { "write" }, vec![1000 + rng.below(2) as u64]);
+        c.src(if rng.chance(1, 2) { "read_ctx" } else { "read" })
+    }
+    fn gen(&self, actor: A, cmd: &Cmd, sh: &mut Shadow, _old: &Self) -> Option<Gen<Self::Op>> {
+        let (ctx, d) = derive(if cmd.src == "read" { self.read().split().1 } else { self.read_ctx() }, actor);
         let uniq = sh.uniq();
-        // equal-values configuration: concurrent writers deliberately write the same payload
-        let val = if sh.equal_vals { 1000 + (cmd.1 % 2) as u32 } else { uniq };
+        // equal-values configuration ("write_val"): concurrent writers deliberately write the same payload
+        let val = if cmd.k == "write_val" { cmd.arg(0) as u32 } else { uniq };
         sh.nwrites[actor as usize] += 1;
         let idx = sh.nwrites[actor as usize];
         let rf_vals = self.read().val;
@@ -383,29 +398,34 @@ where
     (ValObs { reads: Dump::Map(reads), w: Dump::Map(wit), nested: Dump::Map(nested) }, add, rm_all)
 }
 
-/// a key removal at this map level; returns (op, fact-less) and records the context
-fn map_rm_cmd<V: NestedVal>(m: &Map<u8, V, A>, cr: &mut Rng, old: Option<&Map<u8, V, A>>, acc: &mut GenAcc, path: &[u8], carrier: Option<DotT>) -> map::Op<u8, V, A> {
-    let k = cr.below(nk() as usize) as u8;
-    let stale = old.filter(|_| cr.chance(1, 3));
+fn map_rm_random(rng: &mut Rng) -> Cmd {
+    let src = ["read_ctx", "len", "keys", "iter", "get", "get", "get", "get"][rng.below(8)];
+    Cmd::new("rm_key", vec![rng.below(nk() as usize) as u64]).src(src).stale(rng.chance(1, 3))
+}
+
+/// a key removal at this map level; records the context it used
+fn map_rm_exec<V: NestedVal>(m: &Map<u8, V, A>, cmd: &Cmd, old: Option<&Map<u8, V, A>>, acc: &mut GenAcc, path: &[u8], carrier: Option<DotT>) -> map::Op<u8, V, A> {
+    let k = cmd.arg(0) as u8;
+    let stale = if cmd.stale { old } else { None };
     let src = stale.unwrap_or(m);
     let tag = if stale.is_some() { "stale " } else { "" };
-    let (rc, how) = match cr.below(8) {
-        0 => (src.read_ctx().derive_rm_ctx(), "read_ctx"),
-        1 => (src.len().derive_rm_ctx(), "len"),
-        2 => match src.keys().find(|it| *it.val == k) {
-            Some(it) => (it.derive_rm_ctx(), "keys"),
-            None => (src.get(&k).derive_rm_ctx(), "get"),
+    let rc = match cmd.src.as_str() {
+        "read_ctx" => src.read_ctx().derive_rm_ctx(),
+        "len" => src.len().derive_rm_ctx(),
+        "keys" => match src.keys().find(|it| *it.val == k) {
+            Some(it) => it.derive_rm_ctx(),
+            None => src.get(&k).derive_rm_ctx(),
         },
-        3 => match src.iter().find(|it| *it.val.0 == k) {
-            Some(it) => (it.derive_rm_ctx(), "iter"),
-            None => (src.get(&k).derive_rm_ctx(), "get"),
+        "iter" => match src.iter().find(|it| *it.val.0 == k) {
+            Some(it) => it.derive_rm_ctx(),
+            None => src.get(&k).derive_rm_ctx(),
         },
-        _ => (src.get(&k).derive_rm_ctx(), "get"),
+        _ => src.get(&k).derive_rm_ctx(),
     };
     let clk = vc(&rc.clock);
     let mut kp = path.to_vec();
     kp.push(k);
-    acc.desc += &format!("rm key {kp:?} {tag}{how} ctx{clk:?}");
+    acc.desc += &format!("rm key {kp:?} {tag}{} ctx{clk:?}", cmd.src);
     acc.rm_ctxs.push(clk.clone());
     acc.facts.push(Fact::Rm { ctx: clk, path: kp, carrier });
     m.rm(k, rc)
@@ -418,18 +438,28 @@ where
 {
     const DEPTH: usize = V::DEPTH + 1;
     const LEAF_REG: bool = V::LEAF_REG;
-    fn gen_nested(&self, ctx: AddCtx<A>, cr: &mut Rng, path: &[u8], dot: DotT, sh: &mut Shadow, old: Option<&Self>, acc: &mut GenAcc) -> Self::Op {
-        if cr.below(10) < 7 {
-            let k = cr.below(nk() as usize) as u8;
-            let mut kp = path.to_vec();
-            kp.push(k);
-            let old_v = old.and_then(|o| o.get(&k).val);
-            acc.desc += &format!("[{k}].");
-            self.update(k, ctx, |v, c| v.gen_nested(c, cr, &kp, dot, sh, old_v.as_ref(), acc))
+    fn random_nested(rng: &mut Rng) -> Cmd {
+        if rng.below(10) < 7 {
+            Cmd::new("update", vec![rng.below(nk() as usize) as u64]).sub(V::random_nested(rng))
         } else {
-            // inner key removal: carried by the enclosing update, whose dot still witnesses the outer key
-            acc.facts.push(Fact::Up { dot, path: path.to_vec(), leaf: Leaf::None });
-            map_rm_cmd(self, cr, old, acc, path, Some(dot))
+            map_rm_random(rng)
+        }
+    }
+    fn gen_nested(&self, ctx: AddCtx<A>, cmd: &Cmd, path: &[u8], dot: DotT, sh: &mut Shadow, old: Option<&Self>, acc: &mut GenAcc) -> Self::Op {
+        match (&cmd.k[..], &cmd.sub) {
+            ("update", Some(sub)) => {
+                let k = cmd.arg(0) as u8;
+                let mut kp = path.to_vec();
+                kp.push(k);
+                let old_v = old.and_then(|o| o.get(&k).val);
+                acc.desc += &format!("[{k}].");
+                self.update(k, ctx, |v, c| v.gen_nested(c, sub, &kp, dot, sh, old_v.as_ref(), acc))
+            }
+            _ => {
+                // inner key removal: carried by the enclosing update, whose dot still witnesses the outer key
+                acc.facts.push(Fact::Up { dot, path: path.to_vec(), leaf: Leaf::None });
+                map_rm_exec(self, cmd, old, acc, path, Some(dot))
+            }
         }
     }
     fn obs(&self, inc: &mut Option<String>) -> ValObs {
@@ -437,38 +467,58 @@ where
     }
 }
 
-pub fn map_gen<V: NestedVal + Clone>(m: &Map<u8, V, A>, actor: A, cmd: (u8, u8, u8), sh: &mut Shadow, old: &Map<u8, V, A>) -> Option<Gen<map::Op<u8, V, A>>>
+pub fn map_random<V: NestedVal>(rng: &mut Rng) -> Cmd {
+    if rng.below(10) < 7 {
+        let src = ["len", "is_empty", "read_ctx"][rng.below(3)];
+        Cmd::new("update", vec![rng.below(nk() as usize) as u64]).src(src).sub(V::random_nested(rng))
+    } else {
+        map_rm_random(rng)
+    }
+}
+
+pub fn map_gen<V: NestedVal + Clone>(m: &Map<u8, V, A>, actor: A, cmd: &Cmd, sh: &mut Shadow, old: &Map<u8, V, A>) -> Option<Gen<map::Op<u8, V, A>>>
 where
     V::Op: Clone,
 {
-    let mut cr = Rng::new(((cmd.0 as u64) << 16) | ((cmd.1 as u64) << 8) | cmd.2 as u64);
     let mut acc = GenAcc { facts: vec![], desc: String::new(), rf_vals: vec![], rm_ctxs: vec![] };
-    if cr.below(10) < 7 {
-        let rc = match cr.below(3) {
-            0 => m.len().split().1,
-            1 => m.is_empty().split().1,
-            _ => m.read_ctx(),
-        };
-        let (ctx, d) = derive(rc, actor);
-        let want = sh.take_dot(actor);
-        let k = cr.below(nk() as usize) as u8;
-        let old_v = old.get(&k).val;
-        acc.desc = format!("update [{k}].");
-        let op = m.update(k, ctx, |v, c| v.gen_nested(c, &mut cr, &[k], want, sh, old_v.as_ref(), &mut acc));
-        let mut g = Gen::new(op, acc.desc);
-        g.facts = acc.facts;
-        g.rf_vals = acc.rf_vals;
-        g.rm_ctxs = acc.rm_ctxs;
-        g.want_dot = Some(want);
-        g.derived = Some(d);
-        Some(g)
-    } else {
-        let op = map_rm_cmd(m, &mut cr, Some(old), &mut acc, &[], None);
-        let mut g = Gen::new(op, acc.desc);
-        g.facts = acc.facts;
-        g.rm_ctxs = acc.rm_ctxs;
-        Some(g)
+    match (&cmd.k[..], &cmd.sub) {
+        ("update", Some(sub)) => {
+            let rc = match cmd.src.as_str() {
+                "len" => m.len().split().1,
+                "is_empty" => m.is_empty().split().1,
+                _ => m.read_ctx(),
+            };
+            let (ctx, d) = derive(rc, actor);
+            let want = sh.take_dot(actor);
+            let k = cmd.arg(0) as u8;
+            let old_v = old.get(&k).val;
+            acc.desc = format!("update [{k}].");
+            let op = m.update(k, ctx, |v, c| v.gen_nested(c, sub, &[k], want, sh, old_v.as_ref(), &mut acc));
+            let mut g = Gen::new(op, acc.desc);
+            g.facts = acc.facts;
+            g.rf_vals = acc.rf_vals;
+            g.rm_ctxs = acc.rm_ctxs;
+            g.want_dot = Some(want);
+            g.derived = Some(d);
+            Some(g)
+        }
+        ("rm_key", _) => {
+            let op = map_rm_exec(m, cmd, Some(old), &mut acc, &[], None);
+            let mut g = Gen::new(op, acc.desc);
+            g.facts = acc.facts;
+            g.rm_ctxs = acc.rm_ctxs;
+            Some(g)
+        }
+        _ => None,
     }
+}
+
+/// value type of a concrete map alias
+pub trait MapOf {
+    type V: NestedVal;
+}
+impl<V: NestedVal> MapOf for Map<u8, V, A> {
+    type V = V;
 }
 
 macro_rules! impl_map_sut {
@@ -483,7 +533,10 @@ macro_rules! impl_map_sut {
             fn new() -> Self {
                 Map::new()
             }
-            fn gen(&self, actor: A, cmd: (u8, u8, u8), sh: &mut Shadow, old: &Self) -> Option<Gen<Self::Op>> {
+            fn random_cmd(rng: &mut Rng, _sh: &Shadow) -> Cmd {
+                map_random::<<$t as MapOf>::V>(rng)
+            }
+            fn gen(&self, actor: A, cmd: &Cmd, sh: &mut Shadow, old: &Self) -> Option<Gen<Self::Op>> {
                 map_gen(self, actor, cmd, sh, old)
             }
             fn apply_op(&mut self, op: Self::Op) {
